@@ -117,6 +117,33 @@ def run_program(spec, SG=None, entropy_log=None):
                     for i, p in enumerate(model.parameters()):
                         H.add(f"{n}:train:p{i}", p.data)
                         H.add(f"{n}:train:g{i}", p.grad.data)
+                elif k == "dag":
+                    # a whole generated DAG program (any ops of the catalogue) in float32: forward and backward digests
+                    from simkit.graph import Graph
+                    from simkit.core import dec
+                    for rep in range(s["reps"]):
+                        h = Hasher()
+                        G = Graph(SG)
+                        for e in s["events"]:
+                            try:
+                                if e["k"] == "leaf":
+                                    a = dec(e["data"])
+                                    G.add_leaf(e["id"], SG.Tensor(a.astype(np.float32) if a.dtype.kind == "f" else a, requires_grad=e["rg"]))
+                                elif e["k"] == "op" and G.has_inputs(e):
+                                    for o, t in zip(e["out"], G.apply(e)):
+                                        h.add(f"fw{o}", t.data)
+                                elif e["k"] == "backward" and e["root"] in G.T and G.T[e["root"]].requires_grad:
+                                    r = G.T[e["root"]]
+                                    g = None if e["g"] is None else dec(e["g"]).astype(r.data.dtype)
+                                    if (g is None and r.data.size == 1) or (g is not None and g.shape == r.data.shape):
+                                        r.backward(None if g is None else SG.Tensor(g))
+                                        for i in sorted(G.leaves()):
+                                            if G.T[i]._grad is not None:
+                                                h.add(f"g{i}", G.T[i]._grad)
+                            except Exception as ex:
+                                h.add("exc", np.frombuffer(type(ex).__name__.encode(), dtype=np.uint8))
+                        H.add(f"{n}:dag:{rep}", np.frombuffer(h.h.digest(), dtype=np.uint8))
+                        det.append((n, rep, h.h.hexdigest()))
                 elif k == "sumorder":
                     # deterministic part: fixed data, a node with many contributions of spread magnitude, float32
                     for rep in range(s["reps"]):
@@ -171,7 +198,7 @@ class ReproSim(Sim):
     MAX_EVENTS = 1
     RUN_TIMEOUT = 300
     SELFTEST_RUNS = 6
-    PROBES = ["rand_family", "init_family", "layer_constructor", "dropout", "shuffled_split", "training_steps", "sumorder_float32", "fresh_process_hashseed_0",
+    PROBES = ["rand_family", "init_family", "layer_constructor", "dropout", "shuffled_split", "training_steps", "sumorder_float32", "generated_dag_program_float32", "fresh_process_hashseed_0",
               "fresh_process_hashseed_1", "fresh_process_hashseed_random", "heap_displaced", "in_process_twice", "repetitions_without_reseed"]
     RULE = ("one run = one generated program over the random-consuming APIs + training steps + float32 multi-contribution graphs, executed over the "
             "matrix (twice in-process, 3 fresh interpreters with different PYTHONHASHSEED / heap layout, r repetitions of the deterministic part); "
@@ -189,7 +216,7 @@ class ReproSim(Sim):
     def gen(self, rng, st):
         steps = []
         for _ in range(rng.randint(3, 9)):
-            k = rng.choice(["rand", "rand", "init", "layer", "dropout", "split", "train", "sumorder", "sumorder"])
+            k = rng.choice(["rand", "rand", "init", "layer", "dropout", "split", "train", "sumorder", "sumorder", "dag", "dag"])
             if k == "rand":
                 fn = rng.choice(["rand", "randn", "normal", "randint"])
                 s = {"k": "rand", "fn": fn, "shape": [rng.randint(1, 4) for _ in range(rng.randint(1, 3))]}
@@ -206,6 +233,14 @@ class ReproSim(Sim):
                 s = {"k": "dropout", "p": rng.choice([0.1, 0.5, 0.9]), "shape": [rng.randint(2, 6), rng.randint(2, 6)]}
             elif k == "split":
                 s = {"k": "split", "n": rng.randint(4, 20), "test": rng.choice([0.2, 0.5]), "val": rng.choice([None, 0.25])}
+            elif k == "dag":
+                from sims.progsim import ProgSim
+                from simkit.runner import run_generated
+                pst = run_generated(ProgSim(), rng.randrange(2 ** 31), rng.randrange(10 ** 6), "quick")
+                evs = [e for e in pst.events if e["k"] in ("leaf", "op", "backward")]
+                for e in evs:
+                    e.pop("fault", None)
+                s = {"k": "dag", "events": evs, "reps": rng.randint(1, 2)}
             elif k == "train":
                 s = {"k": "train", "d": rng.randint(2, 5), "h": rng.randint(2, 6), "c": rng.randint(2, 4), "p": rng.choice([0.0, 0.3]), "batch": rng.randint(2, 6),
                      "steps": rng.randint(1, 4), "opt": rng.choice(["SGD", "Adam"])}
@@ -242,7 +277,7 @@ class ReproSim(Sim):
         st.sig = kinds + [str(ev["junk"])]
         for s in ev["steps"]:
             st.probes[{"rand": "rand_family", "init": "init_family", "layer": "layer_constructor", "dropout": "dropout", "split": "shuffled_split",
-                       "train": "training_steps", "sumorder": "sumorder_float32"}[s["k"]]] += 1
+                       "train": "training_steps", "sumorder": "sumorder_float32", "dag": "generated_dag_program_float32"}[s["k"]]] += 1
         used = []
         try:
             d1, det1 = run_program(spec, st.SG, used)
